@@ -29,7 +29,7 @@ m = {
     "setup_cmd": f"{PY} setup.py",
     "hooks": {
         "guard": "PDDL_PLUS_PARSER_VERIF",
-        "enable": "no source hooks: monitors wrap the library's public classes from outside (icontract / wrappers installed by /verif/vlib/monitor.py); the variable is only read by /verif's pytest plugin when the repository's tests are used as a workload",
+        "enable": "no source hooks: monitors wrap the library's public classes from outside (plain pre/post wrappers installed by /verif/vlib/monitor.py); the variable is only read by /verif's pytest plugin when the repository's tests are used as a workload",
         "baseline_off_cmd": "cd /repo && /venv/bin/python -m pytest -ra -q -p no:cacheprovider --timeout=900 --continue-on-collection-errors",
         "source_commits": [],
         "add_only": True,
